@@ -1,6 +1,6 @@
 /-
   C20 for GSM 06.10 — the bit-exact arithmetic of the Recommendation (GSM 06.10 section 5.1: add, sub, mult, mult_r,
-  abs, L_mult, L_add, L_sub, norm, div) as SPEC definitions over unbounded `Int` with saturation (`Sf.C20Gsm.Spec`),
+  abs, L_mult, L_add, L_sub, norm, div) as SPEC definitions over unbounded `Int` with saturation (`Sf.Gsm.Rec`, SfProofs/GsmRec.lean),
   proved equal to the macro-shaped model (SfModel/Gsm.lean: GSM_ADD, GSM_SUB, GSM_MULT, GSM_MULT_R, GSM_ABS, gsm_mult,
   gsm_mult_r, GSM_L_ADD, gsm_norm, gsm_div — the code libsndfile compiles) on the ranges the codec uses:
 
@@ -18,64 +18,41 @@
     `gsm_div_conforms`                          ∀ 0 < num ≤ denum ≤ 32767: `gsm_div` = ⌊num · 2^15 / denum⌋ capped at 32767
 -/
 import SfProofs.GsmSpec
+import SfProofs.GsmRec
 namespace Sf.C20Gsm
 open Sf Sf.Gsm Sf.Gsm.Proofs Sf.Gsm.Spec
 
-namespace Spec
-/-! the Recommendation's operators, over unbounded integers -/
-def sat16 (x : Int) : Int := if x > 32767 then 32767 else if x < -32768 then -32768 else x
-def sat32 (x : Int) : Int := if x > 2147483647 then 2147483647 else if x < -2147483648 then -2147483648 else x
-/-- add (var1, var2): 16-bit saturated sum -/
-def add (a b : Int) : Int := sat16 (a + b)
-/-- sub (var1, var2) -/
-def sub (a b : Int) : Int := sat16 (a - b)
-/-- mult (var1, var2) = (var1 · var2) >> 15, and mult (−32768, −32768) = 32767 -/
-def mult (a b : Int) : Int := if a = -32768 ∧ b = -32768 then 32767 else (a * b) / 32768
-/-- mult_r (var1, var2) = (var1 · var2 + 16384) >> 15, and mult_r (−32768, −32768) = 32767 -/
-def multR (a b : Int) : Int := if a = -32768 ∧ b = -32768 then 32767 else (a * b + 16384) / 32768
-/-- abs (var1), abs (−32768) = 32767 -/
-def abs (a : Int) : Int := if a = -32768 then 32767 else if a < 0 then -a else a
-/-- L_mult (var1, var2) = (var1 · var2) << 1 (never used with both −32768) -/
-def lMult (a b : Int) : Int := a * b * 2
-def lAdd (a b : Int) : Int := sat32 (a + b)
-/-- "norm (L_var1)": k normalises L when L · 2^k lies in [2^30, 2^31) (L > 0) resp. in [−2^31, −2^30) … the code's
-    convention for negative values: −2^31 ≤ L · 2^k and L · 2^k ≤ −2^30 − 1 … with −1 answered by 31 -/
-def normalises (l : Int) (k : Nat) : Prop :=
-  if l > 0 then 2 ^ 30 ≤ l * 2 ^ k ∧ l * 2 ^ k < 2 ^ 31 else -(2 ^ 31) ≤ l * 2 ^ k ∧ l * 2 ^ k < -(2 ^ 30)
-/-- div (var1, var2), 0 ≤ var1 ≤ var2, var2 > 0: the 15-bit fractional quotient -/
-def div (num denum : Int) : Int := if num = denum then 32767 else num * 32768 / denum
-end Spec
 
-theorem gsm_add_conforms (a b : Int) : Gsm.add a b = Spec.add a b ∧ gsmAdd a b = Spec.add a b := by
-  unfold Gsm.add gsmAdd sat Spec.add Spec.sat16
+theorem gsm_add_conforms (a b : Int) : Gsm.add a b = Rec.add a b ∧ gsmAdd a b = Rec.add a b := by
+  unfold Gsm.add gsmAdd sat Rec.add Rec.sat16
   simp only
   constructor
   · split <;> split <;> (try split) <;> omega
   · split <;> split <;> (try split) <;> omega
 
-theorem gsm_sub_conforms (a b : Int) : Gsm.sub a b = Spec.sub a b ∧ gsmSub a b = Spec.sub a b := by
-  unfold Gsm.sub gsmSub sat Spec.sub Spec.sat16
+theorem gsm_sub_conforms (a b : Int) : Gsm.sub a b = Rec.sub a b ∧ gsmSub a b = Rec.sub a b := by
+  unfold Gsm.sub gsmSub sat Rec.sub Rec.sat16
   simp only
   constructor
   · split <;> split <;> (try split) <;> omega
   · split <;> split <;> (try split) <;> omega
 
-theorem gsm_abs_conforms (a : Int) (h : W16 a) : gabs a = Spec.abs a := by
+theorem gsm_abs_conforms (a : Int) (h : W16 a) : gabs a = Rec.abs a := by
   unfold W16 at h
-  unfold gabs Spec.abs
+  unfold gabs Rec.abs
   split <;> split <;> (try split) <;> omega
 
 /-- the functions `gsm_mult_r` (add.c, and its open-coded twin in the short-term synthesis filter) and `gsm_mult` -/
-theorem gsm_mult_r_conforms (a b : Int) (ha : W16 a) (hb : W16 b) : gsmMultR a b = Spec.multR a b := by
-  unfold gsmMultR Spec.multR
+theorem gsm_mult_r_conforms (a b : Int) (ha : W16 a) (hb : W16 b) : gsmMultR a b = Rec.multR a b := by
+  unfold gsmMultR Rec.multR
   by_cases h : a = -32768 ∧ b = -32768
   · rw [if_pos h, if_pos h]
   · rw [if_neg h, if_neg h, w16_wrapU, asr15]
     have hp := prod_bound a b ha hb h
     exact w16_id _ (by unfold W16; omega)
 
-theorem gsm_mult_conforms (a b : Int) (ha : W16 a) (hb : W16 b) : gsmMult a b = Spec.mult a b := by
-  unfold gsmMult Spec.mult
+theorem gsm_mult_conforms (a b : Int) (ha : W16 a) (hb : W16 b) : gsmMult a b = Rec.mult a b := by
+  unfold gsmMult Rec.mult
   by_cases h : a = -32768 ∧ b = -32768
   · rw [if_pos h, if_pos h]
   · rw [if_neg h, if_neg h, asr15]
@@ -84,32 +61,32 @@ theorem gsm_mult_conforms (a b : Int) (ha : W16 a) (hb : W16 b) : gsmMult a b = 
 
 /-- the MACRO `GSM_MULT_R (a, b)` stored into an `int16_t` -/
 theorem gsm_mult_r_macro_conforms (a b : Int) (ha : W16 a) (hb : W16 b) (h : ¬ (a = -32768 ∧ b = -32768)) :
-    w16 (Gsm.multR a b) = Spec.multR a b ∧ Gsm.multR a b = Spec.multR a b := by
-  unfold Gsm.multR Spec.multR
+    w16 (Gsm.multR a b) = Rec.multR a b ∧ Gsm.multR a b = Rec.multR a b := by
+  unfold Gsm.multR Rec.multR
   rw [if_neg h, asr15]
   have hp := prod_bound a b ha hb h
   exact ⟨w16_id _ (by unfold W16; omega), rfl⟩
 
 /-- the macro `GSM_MULT (a, b)` -/
 theorem gsm_mult_macro_conforms (a b : Int) (ha : W16 a) (hb : W16 b) (h : ¬ (a = -32768 ∧ b = -32768)) :
-    w16 (Gsm.mult a b) = Spec.mult a b := by
-  unfold Gsm.mult Spec.mult
+    w16 (Gsm.mult a b) = Rec.mult a b := by
+  unfold Gsm.mult Rec.mult
   rw [if_neg h, asr15]
   have hp := prod_bound a b ha hb h
   exact w16_id _ (by unfold W16; omega)
 
 /-- **where macro and spec differ**: exactly the pair (MIN_WORD, MIN_WORD) -/
-theorem gsm_mult_r_macro_differs : w16 (Gsm.multR (-32768) (-32768)) = -32768 ∧ Spec.multR (-32768) (-32768) = 32767 := by decide
+theorem gsm_mult_r_macro_differs : w16 (Gsm.multR (-32768) (-32768)) = -32768 ∧ Rec.multR (-32768) (-32768) = 32767 := by decide
 
 /-- **the decoder never evaluates GSM_MULT_R at that pair**: its four macro sites are
     `GSM_MULT_R (gsm_FAC [mant], temp)` (APCM inverse quantisation), `GSM_MULT_R (gsm_QLB [bcr], drp [k − Nr])` (long-term
     synthesis), `GSM_MULT_R (INVA, temp)` (LAR decoding) and `GSM_MULT_R (msr, 28180)` (de-emphasis); the table operand is
     a table entry or 0 (index out of range), the constant is positive: never MIN_WORD, so each site equals the spec operator -/
 theorem gsm_decoder_mult_r_sites (i x : Int) (hx : W16 x) :
-    w16 (Gsm.multR (tab tabFAC i) x) = Spec.multR (tab tabFAC i) x ∧
-    w16 (Gsm.multR (tab tabQLB i) x) = Spec.multR (tab tabQLB i) x ∧
-    w16 (Gsm.multR (tab tabINVA i) x) = Spec.multR (tab tabINVA i) x ∧
-    w16 (Gsm.multR x 28180) = Spec.multR x 28180 := by
+    w16 (Gsm.multR (tab tabFAC i) x) = Rec.multR (tab tabFAC i) x ∧
+    w16 (Gsm.multR (tab tabQLB i) x) = Rec.multR (tab tabQLB i) x ∧
+    w16 (Gsm.multR (tab tabINVA i) x) = Rec.multR (tab tabINVA i) x ∧
+    w16 (Gsm.multR x 28180) = Rec.multR x 28180 := by
   have key : ∀ (t : List Int), (∀ v ∈ t, 0 < v ∧ v ≤ 32767) → 0 ≤ tab t i ∧ tab t i ≤ 32767 := by
     intro t ht
     unfold tab
@@ -128,9 +105,9 @@ theorem gsm_decoder_mult_r_sites (i x : Int) (hx : W16 x) :
     (gsm_mult_r_macro_conforms x 28180 hx (by unfold W16; omega) (by omega)).1⟩
 
 theorem gsm_l_mult_conforms (a b : Int) (ha : W16 a) (hb : W16 b) (h : ¬ (a = -32768 ∧ b = -32768)) :
-    w32 (a * b * 2) = Spec.lMult a b := by
+    w32 (a * b * 2) = Rec.lMult a b := by
   have hp := prod_bound a b ha hb h
-  unfold Spec.lMult w32 wrapS
+  unfold Rec.lMult w32 wrapS
   have e : (2 : Int) ^ 32 = 4294967296 := by decide
   simp only [e]
   by_cases hx : 0 ≤ a * b * 2
@@ -141,20 +118,20 @@ theorem gsm_l_mult_conforms (a b : Int) (ha : W16 a) (hb : W16 b) (h : ¬ (a = -
       rw [← this, Int.add_emod_right]
     rw [this]; split <;> omega
 
-theorem gsm_l_add_conforms (a b : Int) : lAdd a b = Spec.lAdd a b := by
-  unfold lAdd Gsm.sat32 Spec.lAdd Spec.sat32
+theorem gsm_l_add_conforms (a b : Int) : lAdd a b = Rec.lAdd a b := by
+  unfold lAdd Gsm.sat32 Rec.lAdd Rec.sat32
   split <;> split <;> (try split) <;> omega
 
 /-- **`gsm_norm`**, positive arguments: the result k is in [0, 30] and L · 2^k ∈ [2^30, 2^31) -/
 theorem gsm_norm_conforms_pos (l : Int) (h1 : 0 < l) (h2 : l < 2 ^ 31) :
-    0 ≤ gsmNorm l ∧ gsmNorm l ≤ 30 ∧ Spec.normalises l (gsmNorm l).toNat := by
+    0 ≤ gsmNorm l ∧ gsmNorm l ≤ 30 ∧ Rec.normalises l (gsmNorm l).toNat := by
   obtain ⟨n, rfl⟩ : ∃ n : Nat, l = (n : Int) := ⟨l.toNat, by omega⟩
   have hn1 : 0 < n := by omega
   have hn2 : n < 2 ^ 31 := by exact_mod_cast h2
   obtain ⟨b1, b2, b3⟩ := bitlen_spec n hn1 (Nat.lt_of_lt_of_le hn2 (by decide))
   have b4 := bitlen_le n hn1 hn2
   have hneg : ¬ ((n : Int) < 0) := by omega
-  unfold gsmNorm Spec.normalises
+  unfold gsmNorm Rec.normalises
   simp only [hneg, if_false, Int.toNat_natCast, h1, if_true]
   generalize bitlen n = b at b1 b2 b3 b4
   have e : ((31 : Int) - (b : Int)).toNat = 31 - b := by omega
@@ -209,11 +186,11 @@ theorem gsm_norm_conforms_neg (l : Int) (h1 : l < 0) (h2 : -(2 ^ 31) ≤ l) :
 
 /-- **`gsm_div`**: the restoring division is the 15-bit fractional quotient of the Recommendation -/
 theorem gsm_div_conforms (num denum : Int) (h1 : 0 < num) (h2 : num ≤ denum) (h3 : denum ≤ 32767) :
-    gsmDiv num denum = Spec.div num denum ∧ 0 ≤ gsmDiv num denum ∧ gsmDiv num denum ≤ 32767 := by
+    gsmDiv num denum = Rec.div num denum ∧ 0 ≤ gsmDiv num denum ∧ gsmDiv num denum ≤ 32767 := by
   have hne : num ≠ 0 := by omega
   have hs := divLoop_spec 15 num denum 0 (by omega) h2 (by omega) h3 (by omega) (by norm_num)
   have e15 : (2 : Int) ^ 15 = 32768 := by norm_num
-  unfold gsmDiv Spec.div
+  unfold gsmDiv Rec.div
   rw [if_neg hne, hs, e15]
   have hq0 : 0 ≤ num * 32768 / denum := Int.ediv_nonneg (by omega) (by omega)
   by_cases he : num = denum
@@ -236,6 +213,6 @@ theorem gsm_encoder_reflection_not_min (num denum : Int) (h1 : 0 < num) (h2 : nu
 
 /-- non-vacuity / spot values of the Recommendation's own examples -/
 example : gsmDiv 1 2 = 16384 ∧ gsmDiv 5 5 = 32767 ∧ gsmNorm 1 = 30 ∧ gsmNorm 1073741824 = 0 ∧ gsmNorm (-1) = 31 ∧
-    gsmNorm (-1073741825) = 0 ∧ Spec.multR 32767 32767 = 32766 ∧ gsmMultR 32767 32767 = 32766 ∧ gabs (-32768) = 32767 := by decide +kernel
+    gsmNorm (-1073741825) = 0 ∧ Rec.multR 32767 32767 = 32766 ∧ gsmMultR 32767 32767 = 32766 ∧ gabs (-32768) = 32767 := by decide +kernel
 
 end Sf.C20Gsm
